@@ -142,15 +142,30 @@ def explore_symbolic(make_world, make_run, shape, *, seed=0, max_paths=10**9, de
         st2, c2 = ex2.explore(run2, max_paths=1)
         return st2, c2, W2
 
+    from symx import world as _world0
+
     for c in cands[:5]:
+        realisation = "inheritance"
         try:
             st2, c2, W2 = replay(c["assignment"], c["info"])
+            if not c2:
+                # not reproduced on classes related by inheritance: the same relation realised through ABC.register
+                # (virtual subclasses) is an equally legitimate user hierarchy -- code that reads __mro__ / __bases__
+                # instead of asking issubclass shows up only there
+                _world0.REAL_MODE[0] = "abc"
+                try:
+                    st3, c3, W3 = replay(c["assignment"], c["info"])
+                finally:
+                    _world0.REAL_MODE[0] = "inherit"
+                if c3:
+                    st2, c2, W2, realisation = st3, c3, W3, "abc.ABC.register (virtual subclasses)"
         except Exception:  # noqa: BLE001
+            _world0.REAL_MODE[0] = "inherit"
             res["harness_errors"].append(dict(shape=shape, assignment=c["assignment"],
                                               error=traceback.format_exc()[-800:]))
             continue
         if c2:
-            res["violations"].append(dict(shape=shape, assignment=c["assignment"],
+            res["violations"].append(dict(shape=shape, assignment=c["assignment"], realisation=realisation,
                                           world=W2.describe(c["assignment"]) if hasattr(W2, "describe") else None,
                                           symbolic_run=c["info"], native_run=c2[0]["info"]))
         else:
@@ -182,7 +197,7 @@ def explore_symbolic(make_world, make_run, shape, *, seed=0, max_paths=10**9, de
     for vi, (assignment, info, tags) in enumerate(to_validate):
         # thorough tier: every second validation replay realises the hierarchy through ABC registration instead of
         # inheritance (classes with has-method facts keep inheritance: virtual subclasses do not inherit attributes)
-        use_abc = bool(os.environ.get("VERIF_ABC")) and vi % 2 == 1 and not getattr(W, "hm_names", ())
+        use_abc = bool(os.environ.get("VERIF_ABC")) and vi % 2 == 1
         _world.REAL_MODE[0] = "abc" if use_abc else "inherit"
         try:
             st2, c2, W2 = replay(assignment)
@@ -248,7 +263,13 @@ def replay_record(mod, rec, with_known=True, verbose=True):
     ex = Explorer(forced=assignment)
     for name, v in assignment.items():
         ex.declare(z3.Bool(name) if isinstance(v, bool) else z3.Int(name))
-    W = mod.make_world(ex, shape, True)
+    from symx import world as _world1
+
+    _world1.REAL_MODE[0] = "abc" if str(rec.get("realisation", "")).startswith("abc") else "inherit"
+    try:
+        W = mod.make_world(ex, shape, True)
+    finally:
+        _world1.REAL_MODE[0] = "inherit"
     import inspect as _inspect
 
     kwx = {}
